@@ -317,10 +317,15 @@ class Markers(Relation):
 
 PATCH_KW = [('edgecolor', 'magenta'), ('facecolor', 'yellow'),
             ('linewidth', 3.5), ('fill', True), ('linestyle', '--'),
-            ('alpha', 0.25), ('label', 'my label'), ('zorder', 7)]
+            ('alpha', 0.25), ('label', 'my label'), ('zorder', 7),
+            # matplotlib's shorthand spellings (reg.plot(ax=ax, lw=2, ...))
+            ('lw', 4.5), ('ec', 'orange'), ('fc', 'cyan'), ('ls', ':')]
+ALIASES = {'lw': 'linewidth', 'ec': 'edgecolor', 'fc': 'facecolor',
+           'ls': 'linestyle', 'ms': 'markersize', 'mec': 'markeredgecolor',
+           'mew': 'markeredgewidth'}
 LINE_KW = [('marker', 's'), ('markersize', 13.0), ('markeredgecolor', 'magenta'),
            ('markeredgewidth', 2.5), ('fillstyle', 'full'), ('alpha', 0.5),
-           ('label', 'pt')]
+           ('label', 'pt'), ('ms', 17.0), ('mec', 'orange'), ('mew', 1.5)]
 TEXT_KW = [('color', 'magenta'), ('size', 21.0), ('rotation', 33.0),
            ('ha', 'left'), ('alpha', 0.5), ('family', 'serif')]
 FONT = {'fontname': 'helvetica', 'fontsize': 10, 'fontweight': 'normal',
@@ -371,7 +376,7 @@ class Kwargs(Relation):
                            G.text('near', meta=False))
         return st.fixed_dictionaries({
             'visual': st.integers(0, 7),
-            'kw': st.lists(st.integers(0, 7), min_size=0, max_size=3,
+            'kw': st.lists(st.integers(0, 11), min_size=0, max_size=3,
                            unique=True),
             'region': region,
         })
@@ -391,6 +396,9 @@ class Kwargs(Relation):
         rs['visual'] = dict(VISUALS[vk][sp['visual'] % len(VISUALS[vk])])
         reg = S.build(rs)
         kw = dict(pool[i % len(pool)] for i in sp['kw'])
+        # (never a shorthand together with the name it stands for)
+        kw = {k: v for k, v in kw.items()
+              if not (k in ALIASES and ALIASES[k] in kw)}
         art = reg.as_artist(**kw)
         ctx.label(cls, 'style:' + str(rs['visual'].get('default_style', 'mpl')))
 
@@ -416,9 +424,12 @@ class Kwargs(Relation):
             'ha': lambda a: a.get_ha(),
             'family': lambda a: a.get_family()[0],
         }
-        for k, v in kw.items():
+        for k0, v in kw.items():
+            k = ALIASES.get(k0, k0)
             got = getters[k](art)
             want = v
+            if k == 'linestyle' and v == ':':
+                want = ':'
             if k in ('edgecolor', 'facecolor', 'markeredgecolor', 'color'):
                 want = rgba(v)
                 if k in ('edgecolor', 'facecolor') and 'alpha' in kw:
